@@ -23,7 +23,8 @@ EXPLANATION = (
     " (R8) a file delete keeps everything else: every existing manifest with surviving files reaches final_manifests.append (path query with the 'no survivors' edge as the only bypass); R6 also ties the trim bound to the properties of the metadata being written."
     ' (R9) snapshot_log producers keep commit order (C09.R10); (R10) every create_manifest_file(existing_files=X) site carries DataFiles whose added_snapshot_id / sequence_number come from their source; (R11) who-may-delete census (C09.R3).'
     ' R1 also decides, by scenario, that retention re-adds the current snapshot whenever it is missing from the kept set.'
-    ' (R15) a delete reads EVERY manifest of the base snapshot: a manifest is carried over unchanged only after read_manifest_file in the same iteration.')
+    ' (R15) a delete reads EVERY manifest of the base snapshot: a manifest is carried over unchanged only after read_manifest_file in the same iteration.'
+    ' (R16) numbers (sequence 0, schema id 0, cutoffs) are never truth-tested; (R17) itertools.groupby only over input sorted by the same key; R1 evaluates the expire predicate by scenario (current kept; a snapshot AT the cutoff kept), also through id sets.')
 NOT_DECIDED = ("the invariants over operation histories (parents are true ancestors, log order, retention with out-of-order "
                "timestamps) at run time")
 
